@@ -379,12 +379,21 @@ func expectedPathLen(t *x509.Certificate) int {
 	return -1
 }
 
+// Context of the field laws, set by the template-history workload (reissue.go); the zero
+// values are the plain case of a template written from scratch.
+var (
+	lawCtx           string // prefix of the violation messages: which template history / precedence rule
+	skipSubjectLaw   bool   // RawSubject and Subject of template or parent differ: the documentation is silent, crypto/x509 on a twin judges
+	akiFromExtraExt  []byte // non-nil: ExtraExtensions carries an authorityKeyIdentifier with this key id, which overrides (documented for ExtraExtensions)
+	skidFromExtraExt []byte // non-nil: the same for subjectKeyIdentifier
+)
+
 func checkCertFields(c *mon.Case, t *x509.Certificate, issuer *smx509.Certificate, selfSigned bool, p *smx509.Certificate, subj, signer key, alg x509.SignatureAlgorithm) {
 	if curPart != 0 {
 		return // the laws are checked once per object, in part 0
 	}
 	bad := func(what string, got, want any) {
-		c.Fail("mismatch", "created certificate parses back with a different %s: got %v want %v", what, got, want)
+		c.Fail("mismatch", "%screated certificate parses back with a different %s: got %v want %v", lawCtx, what, got, want)
 	}
 	cmp := func(what string, got, want string) {
 		c.Event("field_comparisons", 1)
@@ -396,13 +405,15 @@ func checkCertFields(c *mon.Case, t *x509.Certificate, issuer *smx509.Certificat
 		bad("version", p.Version, 3)
 	}
 	wantSubj, _ := asn1.Marshal(t.Subject.ToRDNSequence())
-	c.Eq("RawSubject", p.RawSubject, wantSubj)
-	cmp("subject", nameFields(p.Subject), nameFields(t.Subject))
-	if selfSigned {
-		c.Eq("RawIssuer", p.RawIssuer, wantSubj)
-	} else {
-		c.Eq("RawIssuer", p.RawIssuer, issuer.RawSubject)
-		cmp("issuer", nameFields(p.Issuer), nameFields(issuer.Subject))
+	if !skipSubjectLaw {
+		c.Eq(lawCtx+"RawSubject", p.RawSubject, wantSubj)
+		cmp("subject", nameFields(p.Subject), nameFields(t.Subject))
+		if selfSigned {
+			c.Eq(lawCtx+"RawIssuer", p.RawIssuer, wantSubj)
+		} else {
+			c.Eq(lawCtx+"RawIssuer", p.RawIssuer, issuer.RawSubject)
+			cmp("issuer", nameFields(p.Issuer), nameFields(issuer.Subject))
+		}
 	}
 	cmp("SANs", sansString(p.DNSNames, p.EmailAddresses, p.IPAddresses, p.URIs), sansString(t.DNSNames, t.EmailAddresses, t.IPAddresses, t.URIs))
 	cmp("key usage", fmt.Sprintf("%#x", int(p.KeyUsage)), fmt.Sprintf("%#x", int(t.KeyUsage)))
@@ -450,13 +461,19 @@ func checkCertFields(c *mon.Case, t *x509.Certificate, issuer *smx509.Certificat
 			h := sha1.Sum(pubBytes(subj)) // RFC 5280 4.2.1.2 method 1, computed from the template's key
 			want = h[:]
 		}
-		c.Eq("SubjectKeyId", p.SubjectKeyId, want)
+		if skidFromExtraExt != nil {
+			want = skidFromExtraExt
+		}
+		c.Eq(lawCtx+"SubjectKeyId", p.SubjectKeyId, want)
 	}
 	wantAKI := t.AuthorityKeyId
 	if !selfSigned && len(issuer.SubjectKeyId) > 0 {
 		wantAKI = issuer.SubjectKeyId
 	}
-	c.Eq("AuthorityKeyId", p.AuthorityKeyId, wantAKI)
+	if akiFromExtraExt != nil {
+		wantAKI = akiFromExtraExt
+	}
+	c.Eq(lawCtx+"AuthorityKeyId", p.AuthorityKeyId, wantAKI)
 	for _, e := range t.ExtraExtensions {
 		found := false
 		for _, pe := range p.Extensions {
@@ -471,8 +488,8 @@ func checkCertFields(c *mon.Case, t *x509.Certificate, issuer *smx509.Certificat
 		for _, u := range p.UnhandledCriticalExtensions {
 			unh = unh || u.Equal(e.Id)
 		}
-		if unh != e.Critical {
-			bad("UnhandledCriticalExtensions membership of "+e.Id.String(), unh, e.Critical)
+		if want := e.Critical && !handledExtension(e.Id); unh != want {
+			bad("UnhandledCriticalExtensions membership of "+e.Id.String(), unh, want)
 		}
 		c.Event("field_comparisons", 2)
 	}
@@ -848,12 +865,14 @@ func checkCSRFields(c *mon.Case, t *x509.CertificateRequest, p *smx509.Certifica
 	cmp := func(what string, got, want string) {
 		c.Event("field_comparisons", 1)
 		if got != want {
-			c.Fail("mismatch", "created request parses back with a different %s: got %v want %v", what, got, want)
+			c.Fail("mismatch", "%screated request parses back with a different %s: got %v want %v", lawCtx, what, got, want)
 		}
 	}
-	wantSubj, _ := asn1.Marshal(t.Subject.ToRDNSequence())
-	c.Eq("CSR RawSubject", p.RawSubject, wantSubj)
-	cmp("subject", nameFields(p.Subject), nameFields(t.Subject))
+	if !skipSubjectLaw {
+		wantSubj, _ := asn1.Marshal(t.Subject.ToRDNSequence())
+		c.Eq(lawCtx+"CSR RawSubject", p.RawSubject, wantSubj)
+		cmp("subject", nameFields(p.Subject), nameFields(t.Subject))
+	}
 	cmp("SANs", sansString(p.DNSNames, p.EmailAddresses, p.IPAddresses, p.URIs), sansString(t.DNSNames, t.EmailAddresses, t.IPAddresses, t.URIs))
 	cmp("version", fmt.Sprint(p.Version), "0")
 	cmp("public key algorithm", p.PublicKeyAlgorithm.String(), pubKeyAlg(signer).String())
